@@ -382,8 +382,11 @@ def run_tsan(case, ctx):
 
 
 def run_valgrind(case, ctx):
-    """memcheck on the uninstrumented drivers: use of uninitialised values or invalid writes inside mdtraj kernels mean the
-    per-frame result depends on something other than the frame (reads are leads only, see DESIGN 2.4-M6)."""
+    """memcheck on the uninstrumented drivers.  Verdict: invalid writes / frees inside mdtraj kernels (the process state, hence
+    every later per-frame result, is then not a function of the frames).  Uses of uninitialised values and invalid reads are
+    LEADS recorded in the evidence: whether a result depends on them is decided by the bit-for-bit monitors (repetition,
+    junk differential, frame context) — e.g. neighborlist.cpp evaluates a `triclinic` flag from an uninitialised box in the
+    non-periodic path and never uses it, which memcheck reports although no output can depend on it."""
     from vlib import natives
     exe = natives.build_driver(case["driver"], "plain")
     r = natives.run_valgrind(exe, case["args"] + [case["seed"]], case["threads"])
@@ -391,11 +394,11 @@ def run_valgrind(case, ctx):
     if "RESULT" not in r["stdout"]:
         ctx.skip("valgrind", f"driver did not finish under valgrind: {r['stderr_tail'][-200:]}")
         return
-    verdicts = [x for x in r["reports"] if (x["kind"].startswith(("Conditional jump", "Use of uninitialised", "Invalid write", "Invalid free",
-                                                                   "Mismatched free"))) and x["file"] in natives.kernel_files(case["driver"])]
+    kf = natives.kernel_files(case["driver"])
+    verdicts = [x for x in r["reports"] if x["kind"].startswith(("Invalid write", "Invalid free", "Mismatched free")) and x["file"] in kf]
     for x in r["reports"]:
-        if x not in verdicts:
-            ctx.observe("valgrind_lead", f"{x['kind']}:{x['func']}")
+        if x not in verdicts and x["file"] in kf:
+            ctx.observe("valgrind_lead", f"{x['kind'][:40]}:{x['func']}@{x['file']}")
     if verdicts:
         v = verdicts[0]
         ctx.violation("valgrind", f"valgrind:{case['driver']}:{v['kind'].replace(' ', '-')}:{v['func']}", f"memcheck: {v['kind']} in {v['func']} ({v['file']})", report=v["text"])
